@@ -822,6 +822,13 @@ class Tr:
                 d, recv = '.' + chain[1] + '()', ast.copy_location(ast.Name(id=chain[0], ctx=ast.Load()), node)
             else:
                 raise self.err(node, f'call of {d or "<expr>"} is not in the primitive table of family {self.fam.name}')
+        if d and node.args and any(k.startswith(d + ':') for k in self.fam.prims):
+            try:
+                _, s0 = self._E(node.args[0], env)
+            except TranslationError:
+                s0 = None
+            if f'{d}:{s0}' in self.fam.prims:
+                d = f'{d}:{s0}'                          # the same callee on a first argument of another sort: its own reviewed signature
         if d and d + '(out)' in self.fam.prims and any(k.arg == 'out' for k in node.keywords):
             d = d + '(out)'                              # the same callee with / without a destination array: two reviewed signatures
         p = self.fam.prims[d]
@@ -1679,6 +1686,11 @@ LABELED = Family(
         'fullhistogram': Prim('fullhistogram', ['larr'], 'hist'),
         'np.where': Prim('nonzero_idx', ['carr'], 'regs', doc='`idx, = np.where(conditions)`'),
         'remove_regions': Prim('remove_regions', ['larr', 'regs', 'bool'], 'larr', kw={'inplace': 2}),
+        '_as_labeled:larr': Prim('as_labeled_self', ['larr', 'larr', 'bool'], 'larr', kw={'inplace': 2}, pos=[0, 1, 3],
+                                 doc='`_as_labeled(labeled, labeled, funcname, inplace=inplace)`'),
+        'np.asarray': Prim('as_intc', ['regs'], 'regs', drop_kw={'dtype'}, doc='`np.asarray(regions, dtype=np.intc)`'),
+        'np.unique': Prim('unique', ['regs'], 'regs'),
+        '_labeled.remove_regions': Prim('k_remove', ['larr', 'regs'], 'larr', mutates=0),
         'larr!=0': Prim('ne0', ['larr'], 'bimg', doc='`bw != 0`'),
         'bimg&bimg': Prim('and_', ['bimg', 'bimg'], 'bimg', doc='elementwise `&` of two boolean images'),
         'borders': Prim('borders', ['bimg', 'nat', 'str'], 'bimg', kw={'mode': 2}),
@@ -1815,6 +1827,7 @@ TARGETS = [
     Target('labeled.py', 'labeled_min', [('array', 'arr'), ('labeled', 'larr')], 'buf', LABELED),
     Target('labeled.py', 'labeled_size', [('labeled', 'larr')], 'hist', LABELED),
     Target('labeled.py', 'remove_regions_where', [('labeled', 'larr'), ('conditions', 'carr'), ('inplace', 'bool')], 'larr', LABELED),
+    Target('labeled.py', 'remove_regions', [('labeled', 'larr'), ('regions', 'regs'), ('inplace', 'bool')], 'larr', LABELED),
     Target('labeled.py', 'is_same_labeling', [('labeled0', 'larr'), ('labeled1', 'larr')], 'bool', LABELED),
     Target('labeled.py', 'bwperim', [('bw', 'larr'), ('n', 'nat'), ('mode', 'str')], 'bimg', LABELED),
     Target('morph.py', 'disk', [('radius', 'nat'), ('dim', 'nat')], 'bfld', DISK,
